@@ -1140,10 +1140,14 @@ HLPread(accrec_t *access_rec, int32 length, void *datap)
                 &(t_link->block_list[block_idx]);
 
             access_id = Hstartread(access_rec->file_id, DFTAG_LINKED, current_block->ref);
-            if (access_id == (int32)FAIL ||
-                (relative_posn && (int32)FAIL == Hseek(access_id, relative_posn, DF_START)) ||
-                (int32)FAIL == (nbytes = Hread(access_id, remaining, data)))
+            if (access_id == (int32)FAIL)
                 HGOTO_ERROR(DFE_READERROR, FAIL);
+            if ((relative_posn && (int32)FAIL == Hseek(access_id, relative_posn, DF_START)) ||
+                (int32)FAIL == (nbytes = Hread(access_id, remaining, data))) {
+                /* do not leave the block's access record attached to the file */
+                Hendaccess(access_id);
+                HGOTO_ERROR(DFE_READERROR, FAIL);
+            }
 
             bytes_read += nbytes;
             Hendaccess(access_id);
